@@ -79,6 +79,35 @@ def _task(args):
                     source_hash='', symex_s=time.time() - t0, solve_s=0, error=traceback.format_exc())
 
 
+def _btask(args):
+    """bounded stand-in: n random inputs of one contract, all clauses natively"""
+    name, n, seed = args
+    t0 = time.time()
+    try:
+        from pyvc.contract import REGISTRY, ConcreteFactory
+        from pyvc import verify
+        load_contracts()
+        ci = REGISTRY[name]
+        rng = random.Random(seed)
+        ran, fails, samples = 0, [], []
+        for _ in range(n):
+            g = ConcreteFactory({}, rng=rng, bound=6)
+            try:
+                failed = verify.native_check(ci, g)
+            except Exception as e:
+                failed = ['harness:' + type(e).__name__ + ':' + str(e)[:200]]
+            if failed is None:
+                continue
+            ran += 1
+            if len(samples) < 2:
+                samples.append({k: v for k, v in g.used.items()})
+            if failed and len(fails) < 5:
+                fails.append((failed, dict(g.used)))
+        return dict(name=name, ran=ran, fails=fails, samples=samples, wall=time.time() - t0, error=None)
+    except Exception:
+        return dict(name=name, ran=0, fails=[], samples=[], wall=time.time() - t0, error=traceback.format_exc())
+
+
 def _split(args):
     """First-level split of a contract's path tree so that big functions spread over the cores."""
     name, prop, excludes = args
@@ -113,7 +142,8 @@ def run_property(prop: str, tier: str = 'quick', seed: int = 0, only=None, jobs:
     t_start = time.time()
     REG = load_contracts()
     from pyvc import verify
-    contracts = [ci for ci in REG.values() if prop in ci.props and (only is None or ci.name in only) and not ci.assumed]
+    contracts = [ci for ci in REG.values() if prop in ci.props and (only is None or ci.name in only) and not ci.assumed and not ci.bounded]
+    bounded_cis = [ci for ci in REG.values() if prop in ci.props and (only is None or ci.name in only) and ci.bounded]
     assumed = [ci for ci in REG.values() if prop in ci.props and ci.assumed]
     known = [k for k in load_known() if k.get('property') == prop and k.get('status') == 'known']
     excl: Dict[str, tuple] = {}
@@ -134,12 +164,20 @@ def run_property(prop: str, tier: str = 'quick', seed: int = 0, only=None, jobs:
             split_errors[name] = err
         for p in prefixes:
             tasks.append((name, prop, p, timeout_s, both, excl.get(name, ()), max_paths))
+    # bounded stand-ins by design (document-level contracts on generated scores): samples are split over the pool
+    n_samples = int(os.environ.get('PYVC_SAMPLES', '0')) or (160 if tier == 'quick' else 4000)
+    btasks = []
+    for ci in bounded_cis:
+        chunks = 16 if n_samples >= 64 else 1
+        for c in range(chunks):
+            btasks.append((ci.name, n_samples // chunks, seed * 1000003 + c))
     with ctx.Pool(jobs) as pool:
-        results = pool.map(_task, tasks, chunksize=1)
-    return aggregate(prop, tier, seed, contracts, results, split_errors, known, t_start, assumed)
+        results = pool.map(_task, tasks, chunksize=1) if tasks else []
+        bresults = pool.map(_btask, btasks, chunksize=1) if btasks else []
+    return aggregate(prop, tier, seed, contracts, results, split_errors, known, t_start, assumed, bounded_cis, bresults)
 
 
-def aggregate(prop, tier, seed, contracts, results, split_errors, known, t_start, assumed=()):
+def aggregate(prop, tier, seed, contracts, results, split_errors, known, t_start, assumed=(), bounded_cis=(), bresults=()):
     from pyvc import verify
     from pyvc.contract import REGISTRY
     per: Dict[str, dict] = {ci.name: dict(paths=0, infeasible=0, unsupported=[], inlined=set(), uses=set(), items=[], errors=[],
@@ -266,6 +304,40 @@ def aggregate(prop, tier, seed, contracts, results, split_errors, known, t_start
 
     # ---- bounded stand-ins for functions that are outside the verified subset (labelled bounded, never counted as proved)
     bounded = []
+    known_keys = {(k.get('contract'), k.get('obligation')) for k in known}
+    for ci in bounded_cis:
+        rs = [r for r in bresults if r['name'] == ci.name]
+        ran = sum(r['ran'] for r in rs)
+        errs = [r['error'] for r in rs if r['error']]
+        if errs:
+            crashes.append((ci.name, errs[0]))
+        fails = [f for r in rs for f in r['fails']]
+        entry = {'contract': ci.name, 'function': ci.target or '(document-level clause)', 'bound': ci.bounded, 'cases': ran,
+                 'failed': False, 'samples': [s2 for r in rs for s2 in r['samples']][:2]}
+        if ran == 0 and not errs:
+            crashes.append((ci.name, 'bounded stand-in ran zero cases (vacuity guard)'))
+        reported = set()
+        for failed, used in fails:
+            for fid in failed:
+                if fid in reported:
+                    continue
+                reported.add(fid)
+                if fid.startswith('harness:'):
+                    crashes.append((ci.name, fid))
+                    continue
+                kind, label = fid.split(':', 1)
+                info = verify.replay(ci, kind, label, used)
+                if not info.get('confirmed'):
+                    continue
+                if (ci.name, fid) in known_keys:
+                    continue       # a listed known finding: reported through its own recorded witness above
+                entry['failed'] = True
+                info.update(property=prop, failed_obligation=f'{prop}/{ci.name}/{fid}', found_by='bounded stand-in (document-level contract)')
+                rpath = os.path.join(OUT, 'replays', f"{prop}-{ci.name}-{fid.replace(':', '_')}.json")
+                with open(rpath, 'w') as f:
+                    json.dump(info, f, indent=1, default=str)
+                violations.append((f'VIOLATION property={prop} replay={rpath}', info))
+        bounded.append(entry)
     for u in unproved:
         ci = REGISTRY[u['contract']]
         n = 2000 if tier == 'quick' else 20000
@@ -281,7 +353,7 @@ def aggregate(prop, tier, seed, contracts, results, split_errors, known, t_start
             violations.append((f'VIOLATION property={prop} replay={rpath}', hit))
 
     wall = time.time() - t_start
-    level = 'proof' if (not unproved and not undecided and discharged == obligations and obligations > 0) else 'other'
+    level = 'proof' if (not unproved and not undecided and not bounded_cis and discharged == obligations and obligations > 0) else 'other'
     trusted = sorted({a for ci in contracts for a in getattr(ci.pycls, 'assumes', ())}
                      | {f'assumed contract {ci.name} on {ci.target}: {ci.assumed}' for ci in assumed})
     coverage = {
@@ -300,7 +372,9 @@ def aggregate(prop, tier, seed, contracts, results, split_errors, known, t_start
         'violations_reported': [v[0] for v in violations],
     }
     if level != 'proof':
-        coverage['explanation'] = ('not every deciding obligation was discharged deductively in this run: '
+        coverage['evaluations'] = sum(b['cases'] for b in bounded)
+        coverage['explanation'] = ((f'deductive part: {discharged}/{obligations} obligations discharged; bounded part (never counted as proved): '
+                                    + '; '.join(f"{b['contract']} on {b['cases']} cases" for b in bounded) + '. ') if bounded_cis else '') + ('not every deciding obligation was discharged deductively in this run: '
                                    + '; '.join([f"{u['contract']}: out of subset ({u['reason'][0]})" for u in unproved]
                                                + [f'{n}/{it["oid"]}: solver unknown' for n, it in undecided[:5]]
                                                + ([f'{obligations - discharged} obligations failed'] if failures else [])))
